@@ -403,12 +403,15 @@ static void expandCase(uint64_t idx, Ctx& c) {
     genOps(w->ref.d, ops);
     uint64_t slot[S_N] = {0};
     std::map<std::string, uint64_t> kindCount, skipCount;
+    struct timespec tA; clock_gettime(CLOCK_PROCESS_CPUTIME_ID, &tA); double tStep[4] = {0, 0, 0, 0}, tReb = 0; auto cpu = []() { struct timespec t; clock_gettime(CLOCK_PROCESS_CPUTIME_ID, &t); return t.tv_sec + t.tv_nsec * 1e-9; };
     for (size_t i = 0; i < ops.size(); i++) {
         const Opn& op = ops[i];
         if (const char* kd = skipDefect(w->ref.d, op)) { slot[S_SKIP]++; skipCount[kd]++; continue; }
         if (g_prog && xv::g_worker >= 0) g_prog[idx] = (uint32_t)i;
         Trans tr;
+        double c0 = c.verbose ? cpu() : 0;
         step(*w, key0, sig0, op, tr);
+        if (c.verbose) tStep[tr.res] += cpu() - c0;
         slot[S_TRANS]++;
         switch (tr.res) {
         case Trans::EXC_OK: if (tr.exc > 0 && tr.exc < 20) slot[S_EXC + tr.exc]++; slot[S_REJ + op.code]++; break;
@@ -431,12 +434,16 @@ static void expandCase(uint64_t idx, Ctx& c) {
             break;
         }
         if (tr.dirty && i + 1 < ops.size()) {
+            double c1 = c.verbose ? cpu() : 0;
             w.reset(new World());
             slot[S_REBUILD]++;
             if (!replay(*w, s, &err)) { note("harness_replay_failed", 1); if (sf) fflush(sf); return; }
+            sig0 = quickSig(*w);
+            if (c.verbose) tReb += cpu() - c1;
         }
     }
     if (g_prog && xv::g_worker >= 0) g_prog[idx] = 0xFFFFFFFFu;
+    if (c.verbose) { struct timespec tB; clock_gettime(CLOCK_PROCESS_CPUTIME_ID, &tB); printf("expand cpu %.3f s for %llu transitions, %llu rebuilds; exc %.3f same %.3f new %.3f viol %.3f rebuild %.3f\n", (tB.tv_sec - tA.tv_sec) + (tB.tv_nsec - tA.tv_nsec) * 1e-9, (unsigned long long)slot[S_TRANS], (unsigned long long)slot[S_REBUILD], tStep[0], tStep[1], tStep[2], tStep[3], tReb); }
     if (sf) {
         fputs("C", sf);
         for (int k = 0; k < S_N; k++) fprintf(sf, "\t%llu", (unsigned long long)slot[k]);
